@@ -253,6 +253,7 @@ class FakeHidDevice:
             else:
                 self._queue = []
             self._read_error = False
+            self._lat_done = False
             self._rx = bytearray()
             self._rx_seq = 0
             self._rx_total = struct.unpack(">H", pkt[5:7])[0]
@@ -312,6 +313,21 @@ class FakeHidDevice:
         if self._read_error:
             self._read_error = False
             raise OSError("read error")
+        lat = getattr(self.bus, "read_latency", 0)
+        if lat and self._queue and not getattr(self, "_lat_done", False):
+            # the answer is on its way for `lat` REAL seconds (a slow device, a process that
+            # can be signalled meanwhile).  Whatever interrupts the wait, the answer has been
+            # sent: it stays on the HID queue, unread, like any input report
+            import time as _t
+            self._lat_done = True
+            try:
+                _t.sleep(lat)
+            except BaseException:
+                self._desync = True
+                self._stale = list(getattr(self, "_stale", [])) + list(self._queue)
+                self._queue = []
+                self.bus.log("read-interrupted-answer-left-on-the-queue")
+                raise
         if getattr(self, "_hold", False):
             return []        # nothing arrives before the host's time-out
         if getattr(self, "_ready_at", None) is not None:
